@@ -69,7 +69,7 @@ def inputs(run: Run, cfg: dict) -> list[dict]:
         add(c["src"], "indent.tla")
         if cases and cases[-1]["src"] == c["src"]:
             cases[-1]["predicted_layout"] = c
-    for c in gens.fmode(run):
+    for c in gens.fmode(run)[:: (1 if run.tier == "quick" else 2)]:
         add(c["src"], "fmode.tla")
         if cases and cases[-1]["src"] == c["src"]:
             cases[-1]["predicted_fmode"] = c
